@@ -22,8 +22,20 @@ theorem allSome_tail {α} {a : Option α} {l : List (Option α)} (h : allSome (a
 theorem allSome_drop {α} {l : List (Option α)} (h : allSome l) (n : Nat) : allSome (l.drop n) :=
   fun x hx => h x (List.mem_of_mem_drop hx)
 
-theorem allSome_truncate {α} {l : List (Option α)} (h : allSome l) (n : Nat) : allSome (truncate l n) := by
-  unfold truncate; exact allSome_drop h _
+/-- `TruncateToSize` keeps a stack free of nil cells when it really truncates (`n` not above
+the length); above the length it PADS the stack with nil cells (`truncate_pads`). -/
+theorem allSome_truncate {α} {l : List (Option α)} (h : allSome l) (n : Nat) (hn : n ≤ l.length) :
+    allSome (truncate l n) := by
+  unfold truncate
+  rw [if_pos hn]
+  exact allSome_drop h _
+
+theorem truncate_pads {α} (l : List (Option α)) (n : Nat) (hn : l.length < n) : none ∈ truncate l n := by
+  unfold truncate
+  rw [if_neg (by omega)]
+  apply List.mem_append_left
+  rw [List.mem_replicate]
+  exact ⟨by omega, rfl⟩
 
 /-- the stacks of a state hold no nil cell -/
 structure Good (s : St) : Prop where
@@ -171,26 +183,39 @@ theorem popN_safe (n : Nat) (s : St) (hg : Good s) : SafeAt s (popN n) := by
     subst h2
     exact SafeAt_pure _ _ (good_data hg (allSome_drop hg.data n))
 
-theorem restore_good (c : CtlState) (s : St) (hg : Good s) : Good ((restore c).run s).2 := by
+/-- the sizes recorded in `c` are not above the present sizes of the stacks they are applied
+to: `restoreControlState` only truncates. For generated code this is the stack balance that
+C04 establishes; it is a hypothesis here. -/
+def Fits (c : CtlState) (s : St) : Prop :=
+  c.dataSize ≤ s.data.length ∧ c.addrSize ≤ s.addr.length ∧
+  (if s.suspended.length > c.susp
+   then c.linearSize ≤ (s.suspended.getD (s.suspended.length - c.susp - 1) []).length
+   else c.linearSize ≤ s.linear.length)
+
+theorem restore_good (c : CtlState) (s : St) (hg : Good s) (hf : Fits c s) : Good ((restore c).run s).2 := by
   show Good _
   unfold restore
   rw [run_modify]
+  obtain ⟨hd, ha, hl⟩ := hf
   simp only
   split
   · rename_i hlt
-    refine ⟨allSome_truncate hg.data _, allSome_truncate ?_ _, allSome_truncate hg.addr _, ?_, hg.lazies⟩
+    rw [if_pos hlt] at hl
+    refine ⟨allSome_truncate hg.data _ hd, allSome_truncate ?_ _ hl, allSome_truncate hg.addr _ ha, ?_, hg.lazies⟩
     · intro x hx
       have hmem : s.suspended.getD (s.suspended.length - c.susp - 1) [] ∈ s.suspended := by
         rw [List.getD_eq_getElem?_getD, List.getElem?_eq_getElem (by omega)]
         exact List.getElem_mem _
       exact hg.susp _ hmem x hx
-    · intro l hl
-      exact hg.susp l (List.mem_of_mem_drop hl)
-  · exact ⟨allSome_truncate hg.data _, allSome_truncate hg.linear _, allSome_truncate hg.addr _, hg.susp, hg.lazies⟩
+    · intro l hl'
+      exact hg.susp l (List.mem_of_mem_drop hl')
+  · rename_i hlt
+    rw [if_neg hlt] at hl
+    exact ⟨allSome_truncate hg.data _ hd, allSome_truncate hg.linear _ hl, allSome_truncate hg.addr _ ha, hg.susp, hg.lazies⟩
 
-theorem restore_safe (c : CtlState) (s : St) (hg : Good s) : SafeAt s (restore c) := by
+theorem restore_safe (c : CtlState) (s : St) (hg : Good s) (hf : Fits c s) : SafeAt s (restore c) := by
   constructor
-  · exact restore_good c s hg
+  · exact restore_good c s hg hf
   · intro h; cases h
 
 theorem run_restore_ok (c : CtlState) (s : St) : ((restore c).run s).1 = .ok PUnit.unit := rfl
